@@ -218,6 +218,8 @@ def replay(rp):
     import random
     if rp['kind'] == 'glin':
         return glin_concrete(rp)
+    if rp['kind'] == 'shipped':
+        return shipped_concrete(rp)
     code, _ = extract_assembly(report.REPO)
     EE = importlib.import_module('src.error_estimator')
     saved = EE.np
@@ -333,6 +335,137 @@ def glin_concrete(rp):
         PR.np = saved
 
 
+# -- M: the shipped closed-form M0u0 / g through the real residual -----------------------------------------
+SHIPPED = [('Singular', 'UnitSquare'), ('Singular', 'LShape'), ('Smooth', 'UnitSquare'), ('Smooth', 'PiSquare'),
+           ('Dirichlet', 'UnitSquare'), ('MildSingular', 'Circle')]
+
+
+def shipped_run(eng, problem, domain, concrete=None):
+    """residual(...) built by the real ErrorEstimator with the problem's own M0u0 / g evaluated at a point of the
+    boundary: must evaluate (no exception) and equal sum_j Phi_j ev_j + M0u0(t, x) - g(t, x).  t is symbolic where
+    the closed form is real-valued (Singular: erf of real arguments); the Smooth closed forms use complex erf and
+    are evaluated at concrete instants."""
+    import sys
+    if report.REPO not in sys.path:
+        sys.path.insert(0, report.REPO)
+    PR = importlib.import_module('problems')
+    EE = importlib.import_module('src.error_estimator')
+    EE.print = models.noprint
+    EE.np = models.NpProxy(dict(zeros=models.zeros_model))
+    symbolic = problem != 'Smooth' and concrete is None
+    if symbolic:
+        PR.np = models.NpProxy(dict(sqrt=models.sqrt_model, array=models.array_model))
+        PR.erf = models.uf_model('erf', PR.__dict__.get('_real_erf', __import__('scipy.special').special.erf), odd=True)
+    else:
+        PR.np = np
+        PR.erf = __import__('scipy.special').special.erf
+    data = PR.problem_helper(problem, domain)
+    gamma = slsym.curve_pieces(domain)
+    piece = gamma.pw_gamma[0]
+    x_hat = 0.3 * float(gamma.pw_start[1])
+    if symbolic:
+        s_ = eng.real('s')
+        eng.assume(s_ > 0)
+        t = s_ * s_
+        eng.register_sqrt(t, s_)
+    else:
+        t = concrete if concrete is not None else 0.37
+    elems = [slsym.Elem(0.0, 1.0, 0.0, float(gamma.pw_start[1]), piece)]
+    est = EE.ErrorEstimator.__new__(EE.ErrorEstimator)
+
+    class FSL:
+        def _init_elems(self, e):
+            pass
+
+        def evaluate(self, el, tt, xh, xx):
+            return eng.apply('ev', SR.lift(tt)) if symbolic else 0.25
+    r = est.residual(elems, [SR.const(2) if symbolic else 2.0], FSL(), M0u0=data.get('M0u0'), g=data.get('g'))
+    tarr = np.array([t], dtype=object) if symbolic else np.array([t])
+    val = r(tarr, np.array([x_hat]), piece)[0]
+    # independent: the same data evaluated directly
+    x = piece(np.array([x_hat]))
+    want = (2 * eng.apply('ev', SR.lift(t))) if symbolic else 0.5
+    if t > 0 if not symbolic else True:
+        if 'M0u0' in data:
+            m = data['M0u0'](t, x.reshape(2, 1))
+            want = want + (np.asarray(m).reshape(-1)[0])
+        if 'g' in data:
+            want = want - data['g'](t, x.reshape(2, 1))
+    if symbolic:
+        return eng.prove_identity(val, want, 'residual=definition', rtol=1e-12)[0]
+    return abs(float(val) - float(want)) <= 1e-12 * (1 + abs(float(want)))
+
+
+def shipped_worker(case):
+    problem, domain = case
+    eng = Engine(timeout_ms=30000)
+    res = dict(stats=None, violations=[], inconclusive=[], samples=[], functions=[
+        'problems.py:problem_helper', 'src/error_estimator.py:ErrorEstimator.residual'], evaluations=0, nontrivial=0)
+    try:
+        for pr in eng.explore(lambda: shipped_run(eng, problem, domain)):
+            res['evaluations'] += 1
+            res['nontrivial'] += 1
+            bad = None
+            if pr.status == 'exc':
+                bad = 'the residual function raises %s: %s (at %s:%d)' % (type(pr.exc).__name__, pr.exc,
+                                                                        pr.tb[-1].filename.split('/')[-1], pr.tb[-1].lineno)
+            elif not pr.value:
+                bad = 'the residual function is not V Phi + M0u0 - g'
+            if bad:
+                rp = dict(kind='shipped', problem=problem, domain=domain)
+                res['violations'].append(dict(signature='residual-shipped:%s' % ('exception' if pr.status == 'exc' else 'value'),
+                                              what='%s [problem %s on %s]' % (bad, problem, domain), replay=rp,
+                                              reproduced=replay(rp)))
+        res['samples'].append(dict(problem=problem, domain=domain))
+    except Inconclusive as e:
+        res['inconclusive'].append('shipped %r: %s' % (case, e))
+    res['stats'] = eng.stats
+    return res
+
+
+def shipped_concrete(rp):
+    """Plain floats on the unmodified modules: the residual built from the problem's own data must evaluate."""
+    import sys
+    if report.REPO not in sys.path:
+        sys.path.insert(0, report.REPO)
+    PR = importlib.import_module('problems')
+    EE = importlib.import_module('src.error_estimator')
+    import scipy.special
+    saved = (PR.np, PR.erf, EE.np)
+    PR.np, PR.erf, EE.np = np, scipy.special.erf, np
+    try:
+        data = PR.problem_helper(rp['problem'], rp['domain'])
+        gamma = slsym.curve_pieces(rp['domain'])
+        piece = gamma.pw_gamma[0]
+        elems = [slsym.Elem(0.0, 1.0, 0.0, float(gamma.pw_start[1]), piece)]
+        est = EE.ErrorEstimator.__new__(EE.ErrorEstimator)
+
+        class FSL:
+            def _init_elems(self, e):
+                pass
+
+            def evaluate(self, el, tt, xh, xx):
+                return 0.25
+        r = est.residual(elems, [2.0], FSL(), M0u0=data.get('M0u0'), g=data.get('g'))
+        xh = 0.3 * float(gamma.pw_start[1])
+        for t in (0.37, 0.05, 1.0):
+            try:
+                val = r(np.array([t]), np.array([xh]), piece)[0]
+            except Exception:
+                return True
+            x = piece(np.array([xh]))
+            want = 0.5
+            if 'M0u0' in data:
+                want += float(np.asarray(data['M0u0'](t, x.reshape(2, 1))).reshape(-1)[0])
+            if 'g' in data:
+                want -= float(data['g'](t, x.reshape(2, 1)))
+            if abs(float(val) - want) > 1e-10 * (1 + abs(want)):
+                return True
+        return False
+    finally:
+        PR.np, PR.erf, EE.np = saved
+
+
 def run(out):
     cases = [(True, False, 3), (False, True, 3), (True, True, 3), (True, True, 2)]
     for c, r in zip(cases, report.pmap('checks.c03', 'orth_worker', cases)):
@@ -340,6 +473,8 @@ def run(out):
     probs = ['Dirichlet', 'MildSingular']
     for c, r in zip(probs, report.pmap('checks.c03', 'glin_worker', probs)):
         report.merge_worker(out, r, part='B g-linform')
+    for c, r in zip(SHIPPED, report.pmap('checks.c03', 'shipped_worker', SHIPPED)):
+        report.merge_worker(out, r, part='M shipped problem data through the real residual')
     out.bounds = dict(elements='2-3 elements of arbitrary symbolic geometry', data='with M0 only, g only, both',
                       g_linform='Dirichlet, MildSingular on a symbolic element')
     out.outside = ['the three link hypotheses themselves (quadrature accuracy of evaluate / M0u0 / g against matrix, load '
